@@ -94,7 +94,15 @@ int wrapped_main(int argc, char *argv[])
       /* argv[0] can be NULL, you can achieve this with exec(). */
       progname = "bbcbasic_to_text";
     }
-  assert(set_dialect(default_dialect_name, &dialect)); /* set the default */
+  /* Set the default.  This must not be done inside an assert(),
+   * since it would not happen at all when NDEBUG is defined.
+   */
+  if (!set_dialect(default_dialect_name, &dialect))
+    {
+      fprintf(stderr, "internal error: the default dialect %s is unknown\n",
+	      default_dialect_name);
+      return 1;
+    }
   int opt;
   while ((opt=getopt_long(argc, argv, "+d:D:l:", opts, &longindex)) != -1)
     {
